@@ -1,6 +1,6 @@
 """Native oracle for C25 (bounded layer), real compiler.
 
-For every modifier list of length <= 3 over {dagger, control(q), control(q'), control(q, q'), control(arr),
+For every modifier list of length <= 3 over {dagger, control(q), control(q'), control(q, q'), control(arr), control(arr[0], arr[2]),
 power(2), power(n)} a function `with <modifiers>: h(t)` is compiled; from the HUGR of the caller
 we read the chain  LoadFunc -> modifier ops -> CallIndirect  and compare it with the source:
 one op per modifier in source order, ControlModifier arity = number of control qubits, power
@@ -12,7 +12,7 @@ import itertools, os, sys, tempfile, importlib.util, shutil, json
 from guppylang_internals.error import GuppyError
 from hugr import ops, tys as ht
 
-MODS = {"D": ("dagger", 0), "C1": ("control(c1)", 1), "C2": ("control(c1, c2)", 2), "C3": ("control(c2)", 1), "CA": ("control(ca)", 3), "P2": ("power(2)", 0), "PN": ("power(n)", 0)}
+MODS = {"D": ("dagger", 0), "C1": ("control(c1)", 1), "C2": ("control(c1, c2)", 2), "C3": ("control(c2)", 1), "CA": ("control(ca)", 3), "CE": ("control(ca[0], ca[2])", 2), "P2": ("power(2)", 0), "PN": ("power(n)", 0)}
 HEADER = """import guppylang
 guppylang.enable_experimental_features()
 from guppylang import guppy
@@ -38,6 +38,7 @@ def valid(mods):
         if m == "C2": used += ["c1", "c2"]
         if m == "C3": used += ["c2"]
         if m == "CA": used += ["ca"]
+        if m == "CE": used += ["ca"]
     return len(used) == len(set(used))
 
 def compile_all(modlists):
@@ -154,6 +155,10 @@ def threading_problems(hugr, fname):
                 if t1 is not None and t2 is not None and t1 != t2:
                     msgs.append(f"ill-typed wire {opname(hugr, n)}.out{op_.offset} : {t1} -> {opname(hugr, ip.node)}.in{ip.offset} : {t2}")
     kids = list(hugr.children(blk))
+    # every element lent out of an array for the block (a subscripted control) is put back
+    nb, nr = sum(1 for n in kids if opname(hugr, n) == "borrow"), sum(1 for n in kids if opname(hugr, n) == "return")
+    if nb != nr:
+        msgs.append(f"{nb} array elements are lent out around the call but {nr} are put back")
     inp = [n for n in kids if isinstance(hugr[n].op, ops.Input)][0]
     out = [n for n in kids if isinstance(hugr[n].op, ops.Output)][0]
     def src(n, port):
@@ -174,6 +179,7 @@ def threading_problems(hugr, fname):
             elif nm_ == "unpack": stack.append(off); cur = src(n, 0)
             elif nm_ == "new_array": cur = src(n, stack.pop() if stack else 0)
             elif nm_ in ("to_array", "from_array"): cur = src(n, 0)
+            elif nm_ in ("borrow", "return") and off == 0: cur = src(n, 0)      # the array an element is lent out of / put back into
             else: break          # the body's own gates etc.: not a pure hand-back
     return msgs
 
